@@ -153,6 +153,38 @@ func profiles() []profile {
 		sym("l.bin", "dir/d.bin"), lit("e.bin", ""), ptr("big.dat", 5000, 48), raw("rawleft.bin", 1300, 51),
 	}
 
+	// several .gitattributes lines match the same path and set `filter` differently, in both orders, at the root and in
+	// nested files that switch tracking off and on again; plain blobs and pointers sit at those paths (--fixup alphabet)
+	attrs := profile{name: "attrs"}
+	rootA := "*.bin" + lfsAttr + "raw-*.bin !filter\noff-*.bin -filter\nother-*.bin filter=other\nre-*.dat !filter\n*.dat" + lfsAttr
+	rootB := "raw-*.bin !filter\noff-*.bin -filter\n*.bin" + lfsAttr + "*.dat" + lfsAttr + "re-*.dat -filter\n" // same lines, opposite order
+	nestOff := "*.bin !filter\n*.dat -filter\nback-*.bin" + lfsAttr
+	nestOn := "*.bin" + lfsAttr
+	attrs.trees[0] = treeDef{
+		lit(".gitattributes", rootA), raw("a.bin", 1300, 61), raw("raw-1.bin", 1310, 62), ptr("raw-p.bin", 1320, 63), raw("off-1.bin", 700, 64),
+		raw("other-1.bin", 1340, 65), raw("re-1.dat", 1350, 66), ptr("re-p.dat", 1360, 67), txt("c.txt", 150, 68),
+		lit("dir/.gitattributes", nestOff), raw("dir/x.bin", 1370, 69), raw("dir/y.dat", 1380, 70), raw("dir/back-1.bin", 1390, 71), ptr("dir/p.bin", 1400, 72),
+		lit("dir/sub/.gitattributes", nestOn), raw("dir/sub/z.bin", 1410, 73), raw("dir/sub/w.dat", 1420, 74),
+	}
+	attrs.trees[1] = treeDef{ // root lines in the opposite order, new blobs everywhere
+		lit(".gitattributes", rootB), raw("a.bin", 1301, 81), raw("raw-1.bin", 1311, 82), ptr("raw-p.bin", 1320, 63), raw("off-1.bin", 701, 84),
+		raw("other-1.bin", 1341, 85), raw("re-1.dat", 1351, 86), ptr("re-p.dat", 1360, 67), txt("c.txt", 150, 68),
+		lit("dir/.gitattributes", nestOff), raw("dir/x.bin", 1371, 89), raw("dir/y.dat", 1381, 90), raw("dir/back-1.bin", 1391, 91), ptr("dir/p.bin", 1400, 72),
+		lit("dir/sub/.gitattributes", nestOn), raw("dir/sub/z.bin", 1411, 93), raw("dir/sub/w.dat", 1421, 94),
+	}
+	attrs.trees[2] = treeDef{ // nested files swapped: dir switches on what the root leaves off, dir/sub switches everything off
+		lit(".gitattributes", rootA), raw("a.bin", 1302, 101), raw("raw-1.bin", 1312, 102), raw("raw-p.bin", 1322, 103), raw("off-1.bin", 702, 104),
+		raw("other-1.bin", 1342, 105), raw("re-1.dat", 1352, 106), ptr("re-p.dat", 1362, 107), txt("c.txt", 151, 108),
+		lit("dir/.gitattributes", "raw-*.bin"+lfsAttr+"other-*.bin"+lfsAttr), raw("dir/x.bin", 1372, 109), raw("dir/raw-2.bin", 1382, 110), raw("dir/other-2.bin", 1392, 111), ptr("dir/p.bin", 1402, 112),
+		lit("dir/sub/.gitattributes", "* !filter\n"), raw("dir/sub/z.bin", 1412, 113), raw("dir/sub/raw-3.bin", 1422, 114), ptr("dir/sub/q.bin", 1432, 115),
+	}
+	attrs.trees[3] = treeDef{ // no nested files, order B, some blobs shared with T0 (entry cache) and some new
+		lit(".gitattributes", rootB), raw("a.bin", 1300, 61), raw("raw-1.bin", 1313, 122), ptr("raw-p.bin", 1320, 63), raw("off-1.bin", 703, 124),
+		raw("other-1.bin", 1343, 125), raw("re-1.dat", 1353, 126), ptr("re-p.dat", 1360, 67), txt("c.txt", 152, 128),
+		raw("dir/x.bin", 1373, 129), raw("dir/y.dat", 1383, 130), raw("dir/back-1.bin", 1393, 131), ptr("dir/p.bin", 1400, 72),
+		raw("dir/sub/z.bin", 1413, 133), raw("dir/sub/w.dat", 1423, 134),
+	}
+
 	mix := profile{name: "mix", noRewrite: []string{"u.dat", "dir/d.bin", "pl/dup2.dat"}}
 	for k := 0; k < 4; k++ {
 		var t treeDef
@@ -162,7 +194,7 @@ func profiles() []profile {
 		mix.trees[k] = t
 	}
 	// in T1 the root .gitattributes is absent: pl/dup2.dat is not tracked there, so --no-rewrite is only offered where it is
-	return []profile{plain, modes, lfs, tracked, mix}
+	return []profile{plain, modes, lfs, tracked, mix, attrs}
 }
 
 // ---------------------------------------------------------------------------------------------
